@@ -113,6 +113,55 @@ func runInline(c *core.Ctx) []core.Obligation {
 			}
 		}
 	}
+	// the same question for the codecs that hand p to reflect.NewAt(t, p) as the address of the
+	// value (Message and custom types): under inline, p is the value's only word, not its address
+	for _, fn := range fns {
+		if fn.Blocks == nil || fn.Pkg == nil || fn.Pkg.Pkg.Name() != "proto" || fn.Synthetic != "" || fn.Parent() == nil {
+			continue
+		}
+		ln := strings.ToLower(fn.Parent().Name())
+		if !(strings.Contains(ln, "size") || strings.Contains(ln, "encode")) || strings.Contains(ln, "decode") {
+			continue
+		}
+		var ptr, fl *ssa.Parameter
+		for _, p := range fn.Params {
+			switch {
+			case p.Type().String() == "unsafe.Pointer" && ptr == nil:
+				ptr = p
+			case strings.HasSuffix(p.Type().String(), "proto.flags"):
+				fl = p
+			}
+		}
+		if ptr == nil || fl == nil {
+			continue
+		}
+		count := 0
+		for _, ci := range callsIn(fn) {
+			if calleeName(ci.Common()) != "reflect.NewAt" || len(ci.Common().Args) != 2 {
+				continue
+			}
+			fromParam := false
+			adapted := false
+			for _, o := range origins(ci.Common().Args[1]) {
+				if o == ssa.Value(ptr) {
+					fromParam = true
+				} else {
+					adapted = true
+				}
+			}
+			if !fromParam {
+				continue
+			}
+			n++
+			count++
+			key := fmt.Sprintf("inline:%s:newat#%d", closureIndex.ReplaceAllString(shortName(fn), ""), count)
+			if adapted {
+				b.ok(key, c.InstrPos(ci), "the address handed to reflect.NewAt is adapted when the value is inlined")
+			} else {
+				b.bad(key, c.InstrPos(ci), fmt.Sprintf("%s hands p to reflect.NewAt as the address of the value whatever the inline flag says: for a pointer-shaped struct passed by value (type PM struct{ P *int } implementing Message) p is the struct's only word — the pointer P itself — and the methods are called on whatever P points to: Size(PM{P: &five}) dereferences nil", shortName(fn)))
+			}
+		}
+	}
 	if n == 0 {
 		b.und("inline:-", "-", "no load of a pointer from p found in proto's size/encode functions")
 	}
